@@ -140,14 +140,20 @@ void ABTD_futex_timedwait_and_unlock(ABTD_futex_multiple *p_futex,
     ABTD_spinlock_release(p_lock);
     pthread_cond_timedwait(&sync_obj.cond, &sync_obj.mutex, &wait_time);
 
+    /* val must be read while the mutex is held: the signaler updates val and
+     * signals while holding the mutex, so if val is read after the mutex is
+     * unlocked, the signaler can still be between its update of val and its
+     * unlock when this function destroys the mutex and returns. */
+    int val = ABTD_atomic_acquire_load_int(&sync_obj.val);
+
     /* I cannot find whether a statically initialized mutex must be unlocked
      * before it gets out of scope or not, but let's choose a safer way. */
     pthread_mutex_unlock(&sync_obj.mutex);
 
-    if (ABTD_atomic_acquire_load_int(&sync_obj.val) != 0) {
-        /* Since now val is 1, there's no possibility that the signaler is still
-         * touching sync_obj.  sync_obj can be safely released by exiting this
-         * function. */
+    if (val != 0) {
+        /* val was 1 while this thread held the mutex, so the signaler has
+         * already released the mutex and does not touch sync_obj any more.
+         * sync_obj can be safely released by exiting this function. */
     } else {
         /* Maybe this sync_obj is being touched by the signaler.  Take a lock
          * and remove it from the list. */
